@@ -241,14 +241,6 @@ theorem C09_tagified_after_T_iff (env : Env) (h : wfEnv env) (t : Node) :
     cases t <;> simp_all [tagifyT, isEl]
   · exact C09_tagified_after_T env h t
 
-/-- the original statement is refutable: a counterexample under a well-formed environment -/
-theorem C09_tagified_after_T_original_false :
-    ¬ (∀ (env : Env), wfEnv env → ∀ t : Node, tagifiedT env (tagifyT env t) = true) := by
-  intro hall
-  have h := hall ⟨fun _ => .TgList .NNil, fun _ => true⟩
-    (by intro o; simp [tagifiedR, tagifiedL_nil]) (.Ob 0)
-  simp [tagifyT, tagifiedT_ob] at h
-
 /-- C08: tagify is a fixed point -/
 theorem C08_tagify_fixed_point (env : Env) (h : wfEnv env) (l : NodeList) : tagifyL env (tagifyL env l) = tagifyL env l :=
   C08_tagify_id_L env _ (C09_tagified_after_L env h l)
@@ -295,7 +287,6 @@ theorem C09_render_subst (cfg : Cfg) (env : Env) (h : wfEnv env) (l : NodeList) 
 #print axioms C08_tagify_id_L
 #print axioms C09_tagified_after_T
 #print axioms C09_tagified_after_L
-#print axioms C09_tagified_after_T_original_false
 #print axioms C08_tagify_fixed_point
 #print axioms C09_no_ob_T
 #print axioms C09_render_no_raise
